@@ -14,6 +14,7 @@ import time
 
 import runner
 
+SECONDS = int(os.environ.get("VERIF_FUZZ_SECONDS") or 300)  # length of one libFuzzer slot (development aid: shorten)
 FUZZ_DIR = os.path.join(runner.HARNESS, "fuzz")
 TARGET_DIR = os.path.join(runner.TARGET, "fuzz")
 
